@@ -102,6 +102,39 @@ pub fn run(f: &[&str]) -> String {
             }
             _ => "-".to_string(),
         };
-        format!("acc={}\tfv={}\twv={}\tdv={}\tagree={}\tlead={}", acc, fv, wv, dv, agree, if lead { 1 } else { 0 })
+        // conversions of whatever was accepted: flat -> deep -> flat and deep -> flat -> deep keep the value
+        let mut conv = "ok".to_string();
+        if let Ok(a) = &fl {
+            match a.clone().to_deepex() {
+                Ok(d2) => {
+                    let v2 = res_nf(&d2.eval(&sym_vars(d2.var_names().len())), &t);
+                    if v2 != fv || d2.var_names() != a.var_names() {
+                        conv = format!("flat->deep gives {} instead of {}", v2, fv);
+                    }
+                    match F::from_deepex(d2) {
+                        Ok(g) => {
+                            let v3 = val_f(&g);
+                            if (v3 != fv || g.var_names() != a.var_names()) && conv == "ok" {
+                                conv = format!("flat->deep->flat gives {} instead of {}", v3, fv);
+                            }
+                        }
+                        Err(_) => conv = "flat->deep->flat fails".into(),
+                    }
+                }
+                Err(_) => conv = "flat->deep fails".into(),
+            }
+        }
+        if let Ok(d) = &dp {
+            match F::from_deepex(d.clone()) {
+                Ok(g) => {
+                    let v2 = val_f(&g);
+                    if (v2 != dv || g.var_names() != d.var_names()) && conv == "ok" {
+                        conv = format!("deep->flat gives {} instead of {}", v2, dv);
+                    }
+                }
+                Err(_) => conv = "deep->flat fails".into(),
+            }
+        }
+        format!("acc={}\tfv={}\twv={}\tdv={}\tagree={}\tconv={}\tlead={}", acc, fv, wv, dv, agree, conv, if lead { 1 } else { 0 })
     })
 }
